@@ -19,11 +19,13 @@ PROPS["C19"] = dict(
 )
 
 MIN = MINCACHE
-def _omp_run(pid, kinds, tier):
+def _omp_run(pid, kinds, tier, mincache=False):
     """OpenMP-build run of a sequential property: the C16 scenarios of the given kinds under the ICB scheduler + mini-GOMP
     (result equals the reference model for every explored schedule, happens-before race detection)."""
     args = ["--bound=1", "--as=" + pid, "--kinds=" + hex(kinds)] + ([] if tier == "thorough" else ["--max-team=4"])
     if tier == "thorough": args.append("--teams=1-5")
+    if mincache:  # cache-derived recursion thresholds are reached at the scenario sizes (600..700) only in a small-cache build
+        return _icb(C(openmp=1, instr="tsancb", opt="-O1", **MIN), "icb/h_c16.c", args, "openmp-build-icb-min-cache")
     return _icb(C(openmp=1, instr="tsancb", opt="-O1"), "icb/h_c16.c", args, "openmp-build-icb")
 
 def _c01_runs(tier):
@@ -127,12 +129,12 @@ def _c04_runs(tier):
     rs.append(Run(C(**MIN), "harness/p_c04.c", ["--mode=big"], group="min-big"))
     if tier == "thorough":
         rs.append(Run(C(**MIN), "harness/p_c04.c", ["--mode=units"], group="host-units"))
-    rs.append(_omp_run("C04", 0x3c0, tier))
+    rs.append(_omp_run("C04", 0x3c0, tier)); rs.append(_omp_run("C04", 0x3c0, tier, mincache=True))
     return rs
 
 PROPS["C04"] = dict(
     level="exploration", runs=_c04_runs,
-    rule="(OpenMP build: the four triangular solves with n = 600/650 (thorough also 1100) run under the ICB scheduler with the mini-GOMP runtime for teams 2..4 (thorough 1..5): result equals the reference model on every explored schedule, happens-before race detection) + variants {4 public wrappers x cutoffs, 4 _mzd_ cores, 2 Four-Russians cores x k in 0..8} x opposite-triangle fill {zeros, ones, pseudo-random} x T in {ALL unit-triangular matrices n <= 5 (6), a single off-diagonal entry at every position (n up to 66 / 130), full triangle, PR triangles of three densities} x n around word boundaries and the recursion thresholds of the build x B widths {1,2,63,64,65,129,n}; non-trivial = B non-zero; distinct = distinct (T, B, variant, parameter)",
+    rule="(OpenMP build (host and min-cache configuration): the four triangular solves with n = 600/650 (thorough also 1100) run under the ICB scheduler with the mini-GOMP runtime for teams 2..4 (thorough 1..5): result equals the reference model on every explored schedule, happens-before race detection) + variants {4 public wrappers x cutoffs, 4 _mzd_ cores, 2 Four-Russians cores x k in 0..8} x opposite-triangle fill {zeros, ones, pseudo-random} x T in {ALL unit-triangular matrices n <= 5 (6), a single off-diagonal entry at every position (n up to 66 / 130), full triangle, PR triangles of three densities} x n around word boundaries and the recursion thresholds of the build x B widths {1,2,63,64,65,129,n}; non-trivial = B non-zero; distinct = distinct (T, B, variant, parameter)",
     level_text="Bounded-exhaustive differential exploration of the four triangular solves: complete enumeration of small triangular matrices and of single-entry positions, structured and dense triangles at every size class (base case <= 64, Four-Russians, recursion in the min-cache build), always with three different contents of the unused triangle; the oracle multiplies the named triangle by the result with the reference product.",
     level_note="Bounded: n <= ~600; dense triangles are fixed pseudo-random patterns.",
     technique="bounded-exhaustive enumeration on the real code against a reference product (T_named * X == B)",
@@ -148,12 +150,12 @@ def _c05_runs(tier):
     rs.append(Run(C(sse2=0, **MIN), "harness/p_c05.c", ["--mode=big"], group="min-big"))
     if tier == "thorough":
         rs.append(Run(C(sse2=0, **MIN), "harness/p_c05.c", ["--mode=lift"], group="host-lift"))
-    rs.append(_omp_run("C05", 0x800, tier))
+    rs.append(_omp_run("C05", 0x1800, tier)); rs.append(_omp_run("C05", 0x1800, tier, mincache=True))
     return rs
 
 PROPS["C05"] = dict(
     level="exploration", runs=_c05_runs,
-    rule="(OpenMP build: mzd_inv_m4ri with n = 600 (thorough also 530, k = 3) run under the ICB scheduler with the mini-GOMP runtime for teams 2..4 (thorough 1..5): result equals the reference model on every explored schedule, happens-before race detection) + routines {mzd_inv_m4ri with NULL / supplied destination x k in 0..10, mzd_invert_naive with NULL / supplied destination, mzd_trtri_upper, mzd_trtri_upper_russian x k in 0..8} x inputs: ALL of GL_n(2) for n <= 4 (5), ALL unit upper triangular matrices n <= 6 (7), Kronecker lifts of all small unit-triangular / invertible cores by blocks {7,33,(64),65}, dense invertible / PR unit-triangular / rotation / full-triangle matrices at boundary sizes, and the recursive trtri branch in the min-cache build (n >= 363); non-trivial = n > 1; distinct = distinct (input, routine, k)",
+    rule="(OpenMP build (host and min-cache configuration, the latter reaches the recursive branches): mzd_inv_m4ri with n = 600 (thorough also 530, k = 3), mzd_trtri_upper with n = 700 / 400 run under the ICB scheduler with the mini-GOMP runtime for teams 2..4 (thorough 1..5): result equals the reference model on every explored schedule, happens-before race detection) + routines {mzd_inv_m4ri with NULL / supplied destination x k in 0..10, mzd_invert_naive with NULL / supplied destination, mzd_trtri_upper, mzd_trtri_upper_russian x k in 0..8} x inputs: ALL of GL_n(2) for n <= 4 (5), ALL unit upper triangular matrices n <= 6 (7), Kronecker lifts of all small unit-triangular / invertible cores by blocks {7,33,(64),65}, dense invertible / PR unit-triangular / rotation / full-triangle matrices at boundary sizes, and the recursive trtri branch in the min-cache build (n >= 363); non-trivial = n > 1; distinct = distinct (input, routine, k)",
     level_text="Bounded-exhaustive differential exploration of the inversion routines: complete enumeration of the small general linear groups and of small unit-triangular matrices, their lifts across word boundaries, and boundary/threshold sizes; A*B = B*A = I and equality with the reference inverse are checked for every case.",
     level_note="Bounded: complete enumeration only for n <= 4 (5) resp. 6 (7); larger inputs are lifts and fixed pseudo-random matrices up to n ~ 770.",
     technique="bounded-exhaustive enumeration (all of GL_n(2) for small n, all small unit-triangular matrices, lifts) on the real code against a reference inverse",
@@ -306,7 +308,7 @@ def _c12_cross(results):
 
 PROPS["C12"] = dict(
     level="exploration", runs=_c12_runs, cross_check=_c12_cross,
-    rule="configuration lattice: cache triples (L1,L2,L3) with L1 in {4K,32K,64K}, L2 in {32K,256K,1280K}, L3 in {64K,512K,1M,2M,3M,54M} (512K/2M/3M give block sizes 724/1448/1773 that are not multiples of 64), L1<=L2<=L3 (7 triples quick incl. the host's, all thorough) x SSE2 {on,off} x {default, thread-safe, OpenMP, both} (flag mapping evaluated from configure.ac's own fragment; OpenMP builds use gcc + libgomp with 4 threads) = 20 builds quick / ~150 thorough; one fixed case list run in every build: products (mzd_mul x 7 cutoffs, mzd_mul_m4rm x k in {0,2..8}, naive, both accumulate forms) on shapes at every blocking/recursion threshold of every configuration (255..257, 511..513, 1023..1025, (2047..2049)), RREF + rank by M4RI (k = 0..10), PLUQ-based, hybrid, naive, PLUQ reconstruction x cutoffs, inversion (k = 0..10), four TRSM + trtri x cutoffs, solve verdicts; every result equals the reference model and the (case, digest) tables of all builds are identical; non-trivial = every case; distinct = distinct (case, parameter) per build",
+    rule="(case list additionally contains rank profiles that drive the block-recursive PLE - REC family at fixed shapes just above the recursion threshold of the smallest cache configuration - for mzd_pluq, mzd_ple, mzd_echelonize_pluq, mzd_solve_left) configuration lattice: cache triples (L1,L2,L3) with L1 in {4K,32K,64K}, L2 in {32K,256K,1280K}, L3 in {64K,512K,1M,2M,3M,54M} (512K/2M/3M give block sizes 724/1448/1773 that are not multiples of 64), L1<=L2<=L3 (7 triples quick incl. the host's, all thorough) x SSE2 {on,off} x {default, thread-safe, OpenMP, both} (flag mapping evaluated from configure.ac's own fragment; OpenMP builds use gcc + libgomp with 4 threads) = 20 builds quick / ~150 thorough; one fixed case list run in every build: products (mzd_mul x 7 cutoffs, mzd_mul_m4rm x k in {0,2..8}, naive, both accumulate forms) on shapes at every blocking/recursion threshold of every configuration (255..257, 511..513, 1023..1025, (2047..2049)), RREF + rank by M4RI (k = 0..10), PLUQ-based, hybrid, naive, PLUQ reconstruction x cutoffs, inversion (k = 0..10), four TRSM + trtri x cutoffs, solve verdicts; every result equals the reference model and the (case, digest) tables of all builds are identical; non-trivial = every case; distinct = distinct (case, parameter) per build",
     level_text="Exhaustive enumeration of a configuration lattice crossed with every tuning parameter value on a fixed case list whose shapes straddle every configuration-derived threshold; results are compared with the reference model and digest tables are compared between builds.",
     level_note="Bounded: lattice points only (not every cache size), shapes <= 2049, plain -O2 builds with clang 14 / gcc 12 (no sanitizer here; the sanitized multi-configuration runs are in C01-C11).",
     technique="exhaustive enumeration of a build-configuration lattice x parameter alphabets on the real code (digest tables compared across builds and with a reference model)",
@@ -407,11 +409,12 @@ def _c16_runs(tier):
                 _icb(C(openmp=1, instr="tsancb", opt="-O1", sse2=0, **MIN), "icb/h_c16.c", ["--bound=1", "--teams=2-5"], "bound1-min-cache"),
                 _icb(C(openmp=1, instr="tsancb", opt="-O1", **MIN), "icb/h_c16.c", ["--bound=1", "--prefill-only=1"], "bound1-cache-prefilled-min-cache")]
     return [_icb(cfg, "icb/h_c16.c", ["--bound=1"], "bound1-quick-list"),
-            _icb(C(openmp=1, instr="tsancb", opt="-O1", **MIN), "icb/h_c16.c", ["--bound=1", "--prefill-only=1"], "bound1-cache-prefilled-min-cache")]
+            _icb(C(openmp=1, instr="tsancb", opt="-O1", **MIN), "icb/h_c16.c", ["--bound=1", "--prefill-only=1"], "bound1-cache-prefilled-min-cache"),
+            _icb(C(openmp=1, instr="tsancb", opt="-O1", **MIN), "icb/h_c16.c", ["--bound=1", "--kinds=0x1fc0", "--max-team=3"], "bound1-recursive-entry-points-min-cache")]
 
 PROPS["C16"] = dict(
     level="model_checking", runs=_c16_runs, engine="ICB",
-    rule="OpenMP build (gcc -fopenmp, header cache off per configure.ac's fragment) linked against a mini-GOMP runtime implemented on the deterministic scheduler (GOMP_parallel, GOMP_parallel_sections, GOMP_sections_next, GOMP_critical_name_start/end, omp_get_num_threads/thread_num; nested regions get a team of 1 like libgomp's default); scenarios: mzd_mul_mp / mzd_addmul_mp on shapes with remainder strips not multiple of 128 and cutoffs 64/128, mzd_mul_m4rm / mzd_addmul_m4rm / mzd_mul / mzd_echelonize_m4ri on shapes with > 512 rows (static chunks spread over threads), for team sizes {1,2,3,4,5,8,16} (quick) / every size 1..16 (thorough); plus, in a min-cache OpenMP build, the multi-core products started from a NON-INITIAL allocator state (block cache full of large blocks, eviction index advanced) for teams 2..4(5); scheduling points: region fork (who runs first), every GOMP_sections_next (which thread gets which section), every critical(mmc) entry, writes to static storage outside critical sections, thread end / join; teams of 2-3: ALL schedules with at most 1 (thorough also 2) preemption(s); teams of 4-5: default schedule + every single deviation with ALL section-to-thread assignments; larger teams: default + every single deviation; on every execution: result == reference model (= sequential result), vector-clock happens-before race detection over every load/store (fork/join and critical release->acquire edges), deadlock detection; states = nodes of the explored schedule tree, transitions = scheduling decisions executed",
+    rule="OpenMP build (gcc -fopenmp, header cache off per configure.ac's fragment) linked against a mini-GOMP runtime implemented on the deterministic scheduler (GOMP_parallel, GOMP_parallel_sections, GOMP_sections_next, GOMP_critical_name_start/end, omp_get_num_threads/thread_num; nested regions get a team of 1 like libgomp's default); scenarios: mzd_mul_mp / mzd_addmul_mp on shapes with remainder strips not multiple of 128 and cutoffs 64/128, mzd_mul_m4rm / mzd_addmul_m4rm / mzd_mul / mzd_echelonize_m4ri on shapes with > 512 rows (static chunks spread over threads), for team sizes {1,2,3,4,5,8,16} (quick) / every size 1..16 (thorough); the multi-core front ends on all 8 patterns of 'dimension is / is not a multiple of 128' (m, l, n); triangular solves (4 variants), triangular inversion, PLUQ-based elimination and Four-Russians inversion with > 512 rows, also in a min-cache OpenMP build where their cache-derived recursion thresholds are crossed; plus, in a min-cache OpenMP build, the multi-core products started from a NON-INITIAL allocator state (block cache full of large blocks, eviction index advanced) for teams 2..4(5); scheduling points: region fork (who runs first), every GOMP_sections_next (which thread gets which section), every critical(mmc) entry, writes to static storage outside critical sections, thread end / join; teams of 2-3: ALL schedules with at most 1 (thorough also 2) preemption(s); teams of 4-5: default schedule + every single deviation with ALL section-to-thread assignments; larger teams: default + every single deviation; on every execution: result == reference model (= sequential result), vector-clock happens-before race detection over every load/store (fork/join and critical release->acquire edges), deadlock detection; states = nodes of the explored schedule tree, transitions = scheduling decisions executed",
     level_text="Stateless model checking of the OpenMP build: a replacement OpenMP runtime owns every scheduling decision, all schedules within the bound are executed on the real library code, and each execution is checked for data races (happens-before), deadlock and bit-identical results.",
     level_note="libgomp itself is replaced, i.e. the real runtime's implementation of critical/barrier/sections is trusted, not checked. Bounded preemptions / deviations as stated; nested parallelism is serialised (team of 1).",
     technique="stateless model checking on the real code: preemption/deviation-bounded exhaustive schedule enumeration over a mini-OpenMP runtime + vector-clock race detection on every execution",
